@@ -44,10 +44,15 @@ Start(s)  == [s EXCEPT !.st = St("Running", 0)]                         \* confi
 Resume(s) == [s EXCEPT !.st = St("Running", 0), !.chan = Append(@, StateEv(s.st.k, "Running"))]
 PRead(R, s) == [s EXCEPT !.tmp = Pc(R, s.ix), !.rix = s.ix, !.sp = "pset"]
 PSet(s)   == [s EXCEPT !.st = St("Stopped", s.tmp), !.chan = Append(@, StateEv(s.st.k, "Stopped")), !.sp = "idle", !.kind = ""]
-StepImpl(prog, R, kind, j) == CASE kind = "stepIn" -> Succ(R, j)
+(* stepOut: "StepOutReadsTopOfStack" in dev = the return address is taken from the top of the stack (DbgCpu!StepOutImpl); *)
+(* without it = nested calls are counted until the rts of the current subroutine has run (outside any subroutine: to the  *)
+(* end of the test, which the property leaves open).                                                                      *)
+StepOutRun(R, j, dev) == IF "StepOutReadsTopOfStack" \in dev THEN StepOutImpl(R, j)
+                         ELSE IF Depth(R[j]) = 0 THEN Len(R) ELSE StepOutT(R, j)
+StepImpl(prog, R, kind, j, dev) == CASE kind = "stepIn" -> Succ(R, j)
                                 [] kind = "next" -> NextImpl(prog, R, j)
-                                [] kind = "stepOut" -> StepOutImpl(R, j)
-SExec(prog, R, s, kind) == [s EXCEPT !.ix = StepImpl(prog, R, kind, s.ix), !.sp = "pread", !.kind = kind]
+                                [] kind = "stepOut" -> StepOutRun(R, j, dev)
+SExec(prog, R, s, kind, dev) == [s EXCEPT !.ix = StepImpl(prog, R, kind, s.ix, dev), !.sp = "pread", !.kind = kind]
 SetBps(s, B) == [s EXCEPT !.bps = B]
 
 ================================================================================
